@@ -29,6 +29,29 @@ CLAIMED = {
         "contract-based deductive verification: own VC generator over the real source (ast -> z3 FloatingPoint), complete for the loop-free function",
         "DESIGN.md §3 C05",
     ),
+    "C20": (
+        "other",
+        "Proved for all inputs (z3 FloatingPoint / uninterpreted arrays): Stopper.stop_early = documented rule on the window h[i-p+1..i] "
+        "(binary32, no clamping of dynamic_slice), stop_now/continue_, which_best = window start + argmin, and the tail of optim_flat "
+        "(patience restored, position = recorded position at the best iteration, model state = update_state(position), NaN padding / pruning) "
+        "for all four restore/prune combinations. One obligation - the batch key handed to the next iteration is fresh - is refuted on the "
+        "unchanged tree and is the open known finding D7, so the level is 'other' (proof minus one known finding), with a bounded native stand-in.",
+        "jnp.min/argmin over a window are uninterpreted (only window indices are decided); optim_flat's loop body is abstracted to its key "
+        "handling; arrays in the tail are opaque with deterministic at[].set / getitem; D7 is listed in known_findings.json.",
+        "contract-based deductive verification: own VC generator over the real source (ast -> z3 FP/arrays/uninterpreted functions), callee contracts, mechanical slice of optim_flat",
+        "DESIGN.md §3 C20",
+    ),
+    "C11": (
+        "proof",
+        "da_init/da_step/da_finalize are proved equal to the Hoffman-Gelman recurrence (coupling invariant error_sum=(t+t0)*Hbar), "
+        "monotone in the acceptance probability, and for each of RW, MH, IWLS, HMC, NUTS: start_epoch=da_init, end_epoch=da_finalize, "
+        "adaptive transition = standard transition + exactly one da_step with the kernel's own constants and epoch.time_in_epoch, adaptive "
+        "branch iff adaptation epoch, and _standard_transition stores nothing into the kernel state (86 obligations, z3 nonlinear reals).",
+        "A-REAL machine floats treated as reals; exp/log monotone uninterpreted, sqrt by its defining axiom, pow uninterpreted; blackjax, "
+        "mh_step (proved under C05) and iwls_utils used through contracts.",
+        "contract-based deductive verification: own VC generator over the real source (ast -> z3 nonlinear real arithmetic), callee contracts with ghost call recording",
+        "DESIGN.md §3 C11",
+    ),
 }
 
 NOT_APPLICABLE = {
